@@ -20,8 +20,10 @@ COQ = os.path.join(ROOT, 'coq')
 THEORIES = os.path.join(COQ, 'theories')
 NPROC = os.cpu_count() or 4
 
+# GO111MODULE / GOWORK are pinned too: a caller's shell may carry GO111MODULE=off (the translator tools are built that
+# way), which would make `go test` in /repo look for packages in GOPATH
 GOENV = dict(GOFLAGS='-mod=mod', GOPROXY='off', GOSUMDB='off', GOTOOLCHAIN='local',
-             CGO_ENABLED='0')
+             CGO_ENABLED='0', GO111MODULE='on', GOWORK='off')
 
 AXIOM_WHITELIST = [
     # standard-library axioms that may appear (named in DESIGN.md section 7)
